@@ -12,8 +12,8 @@ import io
 import os
 
 from vmc import core, enum, sched as S, install, sftp_pair as SP
-from paramiko.sftp import (CMD_ATTRS, CMD_DATA, SFTP_EOF, SFTP_FAILURE, SFTP_NO_SUCH_FILE,
-                           SFTP_OP_UNSUPPORTED, SFTP_PERMISSION_DENIED)
+from paramiko.sftp import (CMD_ATTRS, CMD_DATA, SFTP_BAD_MESSAGE, SFTP_CONNECTION_LOST, SFTP_EOF, SFTP_FAILURE,
+                           SFTP_NO_CONNECTION, SFTP_NO_SUCH_FILE, SFTP_OP_UNSUPPORTED, SFTP_PERMISSION_DENIED)
 from paramiko.sftp_server import SFTPServer
 from paramiko.sftp_attr import SFTPAttributes
 
@@ -26,12 +26,15 @@ META = {
     "text": "Sizes {0,1,7,8,9,24,809} (MAX_REQUEST_SIZE=8; 809 = 102 chunks crosses the 100-outstanding-writes "
             "branch; thorough adds 16,17,25,1609 and every position of the 809-byte file) x operation {put, putfo, "
             "get, getfo, pipelined open/write/close} x confirm/callback/prefetch/max_concurrent options x delivery "
-            "timing {lazy, eager}; faults: none, k-th write rejected for every k with each of 3 (quick) / 5 "
-            "(thorough) statuses, k-th read failed with each of 2/4 statuses, cut to 3 or 1 bytes, or answered "
+            "timing {lazy, eager}; faults: none, k-th write rejected for every k with every SFTP error code 1..8, "
+            "k-th read failed with every error code 2..8 (inner positions of the 102/202-chunk files: 3 (quick) / "
+            "5 (thorough) write and 2/4 read statuses), k-th and all later reads failing with each code "
+            "(persistent failure, prefetching transfers), k-th read cut to 3 or 1 bytes or answered "
             "with an ATTRS packet, every read short, stat failing.  Oracle: the call raises, or destination bytes "
             "== source bytes and the reported size is right; rejected pipelined write => exception by close().",
     "note": "SFTP_EOF is not injected on reads (indistinguishable from a shorter file); close cannot be made to fail "
-            "through SFTPServerInterface; one fault per execution; default deterministic schedule",
+            "through SFTPServerInterface; one fault per execution (the persistent read failure repeats the same "
+            "status for every later read); default deterministic schedule",
     "design_ref": "4/C29",
 }
 NAME = "remote.bin"
@@ -40,6 +43,12 @@ WRITE_STATUSES = {"quick": [SFTP_FAILURE, SFTP_PERMISSION_DENIED, SFTP_EOF],
                   "thorough": [SFTP_FAILURE, SFTP_PERMISSION_DENIED, SFTP_NO_SUCH_FILE, SFTP_OP_UNSUPPORTED, SFTP_EOF]}
 READ_STATUSES = {"quick": [SFTP_FAILURE, SFTP_NO_SUCH_FILE],
                  "thorough": [SFTP_FAILURE, SFTP_PERMISSION_DENIED, SFTP_NO_SUCH_FILE, SFTP_OP_UNSUPPORTED]}
+# every error code of the protocol (SFTP v3 status codes 1..8); SFTP_EOF on a read means "no more data", so it
+# is no error there.  Used at every position of the small files and at the first and last position of the
+# 102/202-chunk files (both tiers); the per-tier lists above are used at the other positions of the big files.
+ALL_WRITE_STATUSES = [SFTP_EOF, SFTP_NO_SUCH_FILE, SFTP_PERMISSION_DENIED, SFTP_FAILURE, SFTP_BAD_MESSAGE,
+                      SFTP_NO_CONNECTION, SFTP_CONNECTION_LOST, SFTP_OP_UNSUPPORTED]
+ALL_READ_STATUSES = [st for st in ALL_WRITE_STATUSES if st != SFTP_EOF]
 CHUNK = 8
 
 
@@ -94,6 +103,14 @@ def positions(n, tier, big):
     return list(range(1, n + 1))
 
 
+def statuses(kind, tier, k, last, big):
+    """Status codes injected at position k: the whole code space unless k is an inner position of a big file."""
+    full = ALL_WRITE_STATUSES if kind == "write" else ALL_READ_STATUSES
+    if not big or k in (1, last):
+        return full
+    return (WRITE_STATUSES if kind == "write" else READ_STATUSES)[tier]
+
+
 def cases(tier):
     quick = tier == "quick"
     sizes = [0, 1, 7, 8, 9, 24, 809] if quick else [0, 1, 7, 8, 9, 16, 17, 24, 25, 809, 1609]
@@ -103,8 +120,9 @@ def cases(tier):
         n = nchunks(size)
         # ---- uploads
         wfaults = [None]
-        for k in positions(n, tier, big and (quick or size > 809)):
-            for st in WRITE_STATUSES[tier]:
+        wpos = positions(n, tier, big and (quick or size > 809))
+        for k in wpos:
+            for st in statuses("write", tier, k, wpos[-1], big):
                 wfaults.append(("write", k, st))
         for op in ("putfo", "put"):
             for confirm in (True, False):
@@ -129,12 +147,16 @@ def cases(tier):
                                         "eager": eager, "fault": fl, "interleave": "stat"})
         # ---- downloads
         rfaults = [None, ("maxread", 3), ("maxread", 1), ("stat", 1, SFTP_FAILURE)]
-        for k in positions(n + 1, tier, big and (quick or size > 809)):
-            for st in READ_STATUSES[tier]:
+        rpos = positions(n + 1, tier, big and (quick or size > 809))
+        for k in rpos:
+            for st in statuses("read", tier, k, rpos[-1], big):
                 rfaults.append(("read", k, st))
             rfaults.append(("short", k, 3))
             rfaults.append(("short", k, 1))
             rfaults.append(("swap", k))
+        # persistent failure: the k-th read and every later one fail (a re-read of the same chunk, e.g. the
+        # synchronous read after the prefetch pass, fails again); prefetching transfers without callback only
+        pfaults = [("read-onward", k, st) for k in rpos for st in statuses("read", tier, k, rpos[-1], big)]
         for op in ("getfo", "get"):
             for prefetch in (True, False):
                 for mc in ((None, 2) if prefetch else (None,)):
@@ -147,7 +169,7 @@ def cases(tier):
                                     continue
                                 if not quick and size > 809:
                                     continue
-                            for fl in rfaults:
+                            for fl in rfaults + (pfaults if prefetch and mc is None and not cb else []):
                                 out.append({"op": op, "size": size, "prefetch": prefetch, "mc": mc, "cb": cb,
                                             "eager": eager, "fault": fl})
     return out
@@ -185,6 +207,8 @@ def run_case(case):
             plan.fail_write_at = (fl[1], fl[2])
         elif fl[0] == "read":
             plan.fail_read_at = (fl[1], fl[2])
+        elif fl[0] == "read-onward":
+            plan.fail_reads_from = (fl[1], fl[2])
         elif fl[0] == "short":
             plan.short_read_at = (fl[1], fl[2])
         elif fl[0] == "maxread":
@@ -275,7 +299,7 @@ def judge(case, o, src):
     op = case["op"]
     fam = {"put": "put", "putfo": "put", "get": "get", "getfo": "get"}.get(op, op)
     fl = case["fault"]
-    fkind = {None: "no-fault", "write": "write-rejected", "read": "read-failed", "short": "short-read",
+    fkind = {None: "no-fault", "write": "write-rejected", "read": "read-failed", "read-onward": "reads-fail-onward", "short": "short-read",
              "maxread": "short-reads", "stat": "stat-failed", "swap": "wrong-response-type"}[fl[0] if fl else None]
     if not o.fired:
         fkind = "no-fault"
@@ -348,9 +372,12 @@ def main(tier):
         "case = operation x size x options x delivery timing x one fault (kind, position k, status); every k up to "
         "the number of chunks (+1 for the EOF probe on reads; the 809/1609-byte files in quick use k in "
         "{1,50,100,101,102,last}); nontrivial = distinct case in which the injected fault actually fired "
-        "(write rejected / read failed / read shortened / response type swapped / stat failed)",
+        "(write rejected / read failed / read shortened / response type swapped / stat failed); status dimension = "
+        "every SFTP error code (writes 1..8, reads 2..8) at every position of the small files and at the first and "
+        "last position of the big ones, representative codes at their inner positions; persistent read failure "
+        "(k-th read and all later ones) with the same code sets for prefetching get/getfo",
         ["SFTPFile.MAX_REQUEST_SIZE = 8 (class-level configuration); 809 bytes = 102 write requests",
-         "one fault per execution; server otherwise honest (real SFTPServer + default SFTPHandle over /dev/shm)",
+         "one fault per execution (a persistent read failure counts as one); server otherwise honest (real SFTPServer + default SFTPHandle over /dev/shm)",
          "deterministic default schedule; 'eager' delivery lets the server answer after every client packet so "
          "that sock.recv_ready() is true in SFTPFile._write, 'lazy' only when the client blocks",
          "SFTP_EOF is not injected on reads; close() cannot fail through SFTPServerInterface",
